@@ -37,6 +37,7 @@ type CallEnv struct {
 	Events         []Event            // start / end of bodies, in real order
 	SeenStates     map[string]*GState // graph path -> state object last seen by a callback of that graph
 	SeenSeq        map[string]int     // graph path -> logical time of that observation
+	StateMu        sync.Mutex         // serialises harness-side accesses to state objects
 	seenSeq        int
 	Hook           func(ctx context.Context, n *NodeSpec, tag string, in string) // optional extra instrumentation
 	Cancel         context.CancelFunc                                            // called by a body with Fault == cancel
